@@ -2,6 +2,7 @@ package main
 
 import (
 	"fmt"
+	"sync"
 	"go/constant"
 	"go/token"
 	"go/types"
@@ -24,6 +25,7 @@ type Obl struct {
 	Pos    string
 	Tags   []string
 	Extra  []string // extra hypotheses
+	Group   string   // obligations split from one clause share a group: the conjunction is tried first
 	Except  string   // known finding: SMT term of the recorded failing region (over the entry state)
 	Finding *Finding
 	Src    string   // human-readable text of what is being proved
@@ -51,6 +53,8 @@ type Enc struct {
 	caseKey   string
 	topNames  map[string]Val
 	h0        *Heap
+	modWhole  map[string]string
+	modCells  []cellMod
 }
 
 type WatchTerm struct {
@@ -60,7 +64,7 @@ type WatchTerm struct {
 
 func newEnc(P *Program) *Enc {
 	e := &Enc{P: P, declared: map[string]string{}, notes: map[string]bool{}, used: map[string]bool{}, inlined: map[string]bool{}, maxDepth: 14, names: map[string]int{}, refSerial: map[string]int{}}
-	e.decls = append(e.decls, "(declare-fun str.len (Int) Int)", "(declare-fun str.sub (Int Int Int) Int)", "(declare-fun str.cat (Int Int) Int)")
+	e.decls = append(e.decls, "(declare-fun gstr.len (Int) Int)", "(declare-fun gstr.sub (Int Int Int) Int)", "(declare-fun gstr.cat (Int Int) Int)")
 	e.declare("alloc@0", "Int")
 	e.lines = append(e.lines, "(assert (>= |alloc@0| 0))")
 	return e
@@ -77,6 +81,12 @@ func (e *Enc) declare(name, sort string) string {
 	}
 	e.declared[name] = sort
 	e.decls = append(e.decls, fmt.Sprintf("(declare-const %s %s)", q(name), sort))
+	if strings.HasSuffix(name, "@0") {
+		// pre-state: the heap is closed (stored references point to allocated objects or are nil)
+		if d, ok := refArrReg.Load(strings.TrimSuffix(name, "@0")); ok {
+			e.decls = append(e.decls, "(assert "+closureFact(q(name), d.(int), q("alloc@0"))+")")
+		}
+	}
 	return q(name)
 }
 
@@ -158,14 +168,38 @@ func (e *Enc) newRef(h *Heap, hint string) string {
 
 // names of heap arrays ---------------------------------------------------------
 
-func fieldArr(root types.Type, path []int, suffix string) string {
-	return "F_" + typeKey(root) + pathName(root, path) + suffix
+// refArrReg: heap arrays whose cells hold references (value = number of index dimensions)
+var refArrReg sync.Map
+
+func regRef(name string, c Comp, dims int) string {
+	if c.Ref {
+		refArrReg.Store(name, dims)
+	}
+	return name
 }
-func elemArr(elem types.Type, path []int, suffix string) string {
-	return "E_" + typeKey(elem) + pathName(elem, path) + suffix
+
+func fieldArr(root types.Type, path []int, c Comp) string {
+	return regRef("F_"+typeKey(root)+pathName(root, path)+c.Suffix, c, 1)
 }
-func cellArr(t types.Type, path []int, suffix string) string {
-	return "C_" + typeKey(t) + pathName(t, path) + suffix
+func elemArr(elem types.Type, path []int, c Comp) string {
+	return regRef("E_"+typeKey(elem)+pathName(elem, path)+c.Suffix, c, 2)
+}
+func cellArr(t types.Type, path []int, c Comp) string {
+	return regRef("C_"+typeKey(t)+pathName(t, path)+c.Suffix, c, 1)
+}
+
+// closureFact: every reference stored in heap array H points to an allocated object (or is nil).
+func closureFact(H string, dims int, alloc string) string {
+	if dims == 1 {
+		return fmt.Sprintf("(forall ((r Int)) (! (and (<= 0 (select %s r)) (<= (select %s r) %s)) :pattern ((select %s r))))", H, H, alloc, H)
+	}
+	return fmt.Sprintf("(forall ((r Int) (i Int)) (! (and (<= 0 (select (select %s r) i)) (<= (select (select %s r) i) %s)) :pattern ((select (select %s r) i))))", H, H, alloc, H)
+}
+
+func (e *Enc) assumeClosure(name, H, alloc string) {
+	if d, ok := refArrReg.Load(name); ok {
+		e.lines = append(e.lines, "(assert "+closureFact(H, d.(int), alloc)+")")
+	}
 }
 
 func (e *Enc) loadAt(h *Heap, a *Addr) Val {
@@ -181,11 +215,11 @@ func (e *Enc) loadAt(h *Heap, a *Addr) Val {
 	for i, c := range cs {
 		switch a.K {
 		case aField:
-			ts[i] = sel(e.harr(h, fieldArr(a.Root, a.Path, c.Suffix), arrSort('F', c.Sort)), a.Base)
+			ts[i] = sel(e.harr(h, fieldArr(a.Root, a.Path, c), arrSort('F', c.Sort)), a.Base)
 		case aCell:
-			ts[i] = sel(e.harr(h, cellArr(a.Root, a.Path, c.Suffix), arrSort('C', c.Sort)), a.Base)
+			ts[i] = sel(e.harr(h, cellArr(a.Root, a.Path, c), arrSort('C', c.Sort)), a.Base)
 		case aElem:
-			ts[i] = sel(sel(e.harr(h, elemArr(a.Root, a.Path, c.Suffix), arrSort('E', c.Sort)), a.Base), a.Idx)
+			ts[i] = sel(sel(e.harr(h, elemArr(a.Root, a.Path, c), arrSort('E', c.Sort)), a.Base), a.Idx)
 		}
 	}
 	v, _ := fromComps(t, ts)
@@ -205,15 +239,15 @@ func (e *Enc) storeAt(h *Heap, a *Addr, v Val) {
 	for i, c := range cs {
 		switch a.K {
 		case aField:
-			n := fieldArr(a.Root, a.Path, c.Suffix)
+			n := fieldArr(a.Root, a.Path, c)
 			s := arrSort('F', c.Sort)
 			e.hset(h, n, s, store(e.harr(h, n, s), a.Base, vs[i]), a.Base)
 		case aCell:
-			n := cellArr(a.Root, a.Path, c.Suffix)
+			n := cellArr(a.Root, a.Path, c)
 			s := arrSort('C', c.Sort)
 			e.hset(h, n, s, store(e.harr(h, n, s), a.Base, vs[i]), a.Base)
 		case aElem:
-			n := elemArr(a.Root, a.Path, c.Suffix)
+			n := elemArr(a.Root, a.Path, c)
 			s := arrSort('E', c.Sort)
 			H := e.harr(h, n, s)
 			e.hset(h, n, s, store(H, a.Base, store(sel(H, a.Base), a.Idx, vs[i])), a.Base)
@@ -415,6 +449,7 @@ type loopInfo struct {
 	iterName string
 	allocIn  string
 	heapIn   *Heap
+	frameInv []frameInvItem
 }
 
 type Frame struct {
